@@ -408,7 +408,7 @@ def thorough_extras(prop, reg, under, a, t0):
     p = os.path.join(OUT, 'evidence', f'{prop}.json')
     try:
         ev = json.load(open(p))
-        not_run = [m for m in extras['mutants'] if m.get('why', '').startswith('not run')]
+        not_run = [m for m in extras['mutants'] if str(m.get('why') or '').startswith('not run')]
         ms = [m for m in extras['mutants'] if m not in not_run]
         extras['mutants_not_run_time_budget'] = len(not_run)
         breaking = [m for m in ms if m.get('expect') in (None, 'violation', 'undecided-or-violation')]
